@@ -54,14 +54,14 @@ def sendMessage (n : Int) (exps : Int) (tailExps : Int) (topic0 : Int) (hasChk :
           if (result = eSucc) then
             let lo_v1 : Int := (Go.add64 lo 1)
             let mo_v1 : Int := lo_v1
-            (mp_v1, mo_v1, nilv, exps_v1, lo_v1, mp_v1, mo_v1, rep0)
+            (0, mo_v1, nilv, exps_v1, lo_v1, mp_v1, mo_v1, rep0)
           else
             ((-1), (-1), result, exps_v1, lo, mp_v1, mo, rep0)
       else
         if (result = eSucc) then
           let lo_v2 : Int := (Go.add64 lo 1)
           let mo_v2 : Int := lo_v2
-          (mp_v1, mo_v2, nilv, exps_v1, lo_v2, mp_v1, mo_v2, rep0)
+          (0, mo_v2, nilv, exps_v1, lo_v2, mp_v1, mo_v2, rep0)
         else
           ((-1), (-1), result, exps_v1, lo, mp_v1, mo, rep0)
   else
